@@ -3,10 +3,9 @@ from aofcheck import *
 import gen_aof
 install()
 
-# the windows in which the code as it is does not keep the promise (known finding C09-rewrite-not-crash-atomic):
-# the model reproduces them (strict correspondence), the reference does not judge them
-NOT_ATOMIC = ("pre.create.after_truncate", "pre.create.torn_write", "pre.create.after_write", "pre.create.after_sync",
-              "rewrite.after_preamble", "log.trunc.begin")
+# Before the repair of the rewrite (fix-c09-atomic-rewrite) six windows were compared with the faithful model only;
+# every image is judged by the reference now.
+NOT_ATOMIC = ()
 
 class C09(AofCheck):
     prop = "C09"
@@ -20,10 +19,11 @@ class C09(AofCheck):
         if q:
             sched = sched[::3]
         return {
-            "rewrite": [gen_aof.workload(rng, "w%d" % i, rng.randrange(5, 12), torn=1, rewrite=0.3) for i in range(50 if q else 1000)],
+            "rewrite": [gen_aof.workload(rng, "w%d" % i, rng.randrange(5, 12), torn=1, rewrite=0.3) for i in range(40 if q else 1000)],
             "fresh": [self.fresh(i) for i in range(3)],
             "rewrite-twice": [self.twice(i) for i in range(24 if q else 240)],
             "chain": [gen_aof.chain(rng, "c%d" % i, 3, rng.randrange(2, 7), rewrite=0.3) for i in range(40 if q else 1000)],
+            "rewrite-dies": [self.dies(i) for i in range(len(gen_aof.K_POINTS) * (2 if q else 12))],
             "concurrent": sched + [gen_aof.concurrent(rng, "r%d" % i, rng.randrange(0, 5)) for i in range(20 if q else 600)],
         }
 
@@ -34,6 +34,31 @@ class C09(AofCheck):
             s.raw("RW 1", ["rewrite"])
         s.raw("D 0 12", ["select", 0, 12])
         gen_aof.add_cmd(s, 0, ["SET", "a", "x"]); gen_aof.add_cmd(s, 1, ["RPUSH", "l", "p"])
+        s.raw("G", ["digest"]); s.raw("K", ["kill"]); s.raw("O", ["open"]); s.raw("G", ["digest"])
+        return s
+
+    def dies(self, i):
+        """writes, a REWRITEAOF that dies at a failpoint, restart on what is left (everything acknowledged must be
+        there, nothing twice), more writes, restart again (they must be there too: an interrupted truncation has to
+        be completed by the first restart), a completed rewrite, restart"""
+        rng = self.rng
+        s = Script("k%d" % i, {"aofsync": gen_aof.POLICIES[(i // len(gen_aof.K_POINTS)) % 3], "images": "0"})
+        s.raw("O", ["open"])
+        d = rng.choice([0, 0, 1, 12])
+        if d:
+            s.raw("D 1 %d" % d, ["select", 1, d])
+        for argv in rng.sample([["INCR", "n"], ["RPUSH", "l", "a"], ["APPEND", "a", "x"], ["SADD", "s", "m"], ["HSET", "h", "f", "1"],
+                                ["ZADD", "z", "1.5", "m"]], rng.randrange(1, 5)):
+            gen_aof.add_cmd(s, 1, argv)
+        if i % 2:
+            s.raw("RW 1", ["rewrite"]); gen_aof.add_cmd(s, 1, ["INCR", "n"])
+        s.raw("RWK 1 %s" % gen_aof.K_POINTS[i % len(gen_aof.K_POINTS)], ["rewrite dies at", gen_aof.K_POINTS[i % len(gen_aof.K_POINTS)]])
+        s.raw("K", ["kill"]); s.raw("O", ["open"]); s.raw("G", ["digest"])
+        if d:
+            s.raw("D 1 %d" % d, ["select", 1, d])
+        gen_aof.add_cmd(s, 1, ["INCR", "n"]); gen_aof.add_cmd(s, 1, ["RPUSH", "l", "b"])
+        s.raw("G", ["digest"]); s.raw("K", ["kill"]); s.raw("O", ["open"]); s.raw("G", ["digest"])
+        s.raw("RW 1", ["rewrite"]); gen_aof.add_cmd(s, 1, ["INCR", "n"])
         s.raw("G", ["digest"]); s.raw("K", ["kill"]); s.raw("O", ["open"]); s.raw("G", ["digest"])
         return s
 
@@ -69,8 +94,9 @@ class C09(AofCheck):
         return ("as C02, with REWRITEAOF at random positions (image of the directory at each of the rewrite's file steps, the "
                 "torn preamble write at sampled offsets), rewrite of a fresh log, crash chains containing rewrites, and a write "
                 "command parked at a yield point while REWRITEAOF runs on another goroutine (or the other way round); final "
-                "disk, mid image and a restart are judged by the reference; the five windows of the known finding are compared "
-                "with the faithful model only")
+                "disk, mid image and a restart are judged by the reference; a REWRITEAOF that dies at each of its failpoints, "
+                "followed by a restart, more writes and another restart; every image at every failpoint and every cut of the "
+                "log's new header is judged by the reference (no window is exempt any more)")
 
     def in_known_trigger(self, script):
         return None
